@@ -298,6 +298,26 @@ def run(ctx):
                 ctx.violation({"op": "setup-sq-array", "kind": why.split(" ")[0]},
                               {"case": c_, "implementation": o_[:300], "why": why, "how_to_replay": "echo '%s' | %s" % (c_, exe)})
         ctx.extra.setdefault("sq_array_probe", {})[mode] = {"probes": len(probes), "rings_created": seen_rings}
+        # every pointer / mask / size setup_io_uring stores in the IoUring it returns vs the kernel's io_uring_params offsets
+        # (the ring theorems speak about "the SQ tail word", "the SQ flags word", ...: this ties those names to the real ring)
+        lflags = [0, 1 << 1, 1 << 3, 1 << 10, 1 << 11, (1 << 10) | (1 << 11), (1 << 1) | (1 << 10)]      # SQPOLL, CQSIZE.., SQE128, CQE32
+        lprobes = ["layout %d %d %d" % (e, f, 50 if f & 2 else 0) for e in ([1, 4, 64, 100] if quick else [1, 2, 3, 4, 8, 64, 100, 1000, 4096])
+                   for f in lflags if f != 1 << 3]
+        _, louts, _ = C.run_filter([exe], lprobes)
+        ctx.evaluations += len(lprobes)
+        laid = 0
+        for c_, o_ in zip(lprobes, louts + ["no-output"] * (len(lprobes) - len(louts))):
+            if o_.startswith("setup-err"):
+                continue
+            if o_.startswith("layout-ok"):
+                laid += 1
+                continue
+            ctx.violation({"op": "setup-layout", "kind": o_.split(" ")[1].split(":")[0] if o_.startswith("layout-bad") else "no-layout"},
+                          {"case": c_, "implementation": o_[:400],
+                           "why": "setup_io_uring stored a pointer / size that is not the one the kernel's io_uring_params designates: " + o_[:200],
+                           "how_to_replay": "echo '%s' | %s" % (c_, exe)})
+        ctx.extra.setdefault("setup_layout_probe", {})[mode] = {"probes": len(lprobes), "rings_compared": laid}
+        ctx.count(("setup-layout", mode, laid > 0))
         if not release:
             _, outs, _ = C.run_filter([exe], cases)
             coverage(ctx, cases, outs)
